@@ -246,10 +246,14 @@ class _World:
         self.pb = pb
         self.q = [getattr(pb.Unit, u)(v) for v, u in spec["pool"]]
         self.dim = [UNIT_DIM[u] for v, u in spec["pool"]]
-        self.raw = [x.raw_value for x in self.q]
+        # The reference is captured from a TWIN of every pool quantity (same constructor call, another object): the pool
+        # objects themselves are handed to the tasks UNREAD, as a caller would hand a freshly built quantity to worker
+        # threads - an observer that reads each quantity before sharing it would settle any lazily computed state itself
+        twins = [getattr(pb.Unit, u)(v) for v, u in spec["pool"]]
+        self.raw = [x.raw_value for x in twins]
         self.readings = []
         self.h0 = []
-        for x, d in zip(self.q, self.dim):
+        for x, d in zip(twins, self.dim):
             self.readings.append({u: fhex(x.get_in(getattr(pb.Unit, u))) for u in DIMS[d]})
             self.h0.append(hash(x))
         self.rawhex = [fhex(r) for r in self.raw]
